@@ -76,7 +76,7 @@ class BaseV:
 
     def check(self, cond, sig, detail=''):
         if not cond:
-            raise PropFail(sig, detail() if callable(detail) else detail)
+            raise PropFail(sig, detail)   # a callable detail is evaluated after the path is detached
 
 
 class ConcV(BaseV):
